@@ -96,7 +96,14 @@ Definition pd_model_ok (c : lcase) : bool :=
                      || (oloc_eqb (to_KeyError (reg_get_loc k a s (List.length ls) x)) (to_KeyError (tbl_get_loc (l_tbl c) ls x))
                          && Bool.eqb (reg_contains k a s (List.length ls) x) (snd xb)))
                   (l_in c)
-      | None => true
+      | None =>
+          (* any other pandas index: the plain model (position of the label), on duplicate-free indexes *)
+          forallb (fun xb : label * bool =>
+                     let x := fst xb in
+                     negb (plain_speaks ls x)
+                     || (oloc_eqb (to_KeyError (plain_get_loc ls x)) (to_KeyError (tbl_get_loc (l_tbl c) ls x))
+                         && Bool.eqb (plain_contains ls x) (snd xb)))
+                  (l_in c)
       end
   | _ => true
   end.
